@@ -423,8 +423,14 @@ def delete_preconditions(prog, an, rep):
                   'stabilization test is %s' % canon(
                       f, seen['active stabilization branch'][0].test))
     # archive tag for hotfix branches has its own suffix
-    at = [src(v) for _, v in stores_to(f, 'archive_tag') if v is not None]
-    rep.check("del_branch.version" in at and any(
+    # (the local that is tagged: the hole of the 'git tag {}' command)
+    tagv = {src(h[0]) for n_ in walk_local(f.node, include_root=False)
+            if isinstance(n_, (ast.BinOp, ast.JoinedStr, ast.Call))
+            for h in [(string_template(n_) or ('', []))[1]]
+            if (string_template(n_) or ('',))[0] == 'git tag {}' and h}
+    at = [canon(f, v) for name in tagv for _, v in stores_to(f, name)
+          if v is not None]
+    rep.check(B + '.version' in at and any(
         'archived_hotfix_branch' in x for x in at), R, f.qname +
         ': archive tag = version (hotfix: suffixed)', f.where(),
         'archive tag is %s' % at)
@@ -534,11 +540,17 @@ def rebuild_order(prog, an, rep):
     R = 'C20.MPT.rebuild-order'
     f = need_func(an, JOBS + '.rebuild_queues.rebuild_queues')
     c = an.cfg(f)
-    qp = [(st, v) for st, v in stores_to(f, 'queued_prs') if v is not None]
-    ok = len(qp) == 1 and src(qp[0][1]) == 'queue_collection.queued_prs'
-    qc = [v for _, v in stores_to(f, 'queue_collection') if v is not None]
-    ok = ok and len(qc) == 1 and \
-        src(qc[0]) == 'build_queue_collection(job)'
+    # the local that keeps the queued pull requests: bound, once, to
+    # build_queue_collection(job).queued_prs
+    qp = []
+    for st in walk_local(f.node, include_root=False):
+        if isinstance(st, ast.Assign) and len(st.targets) == 1 and \
+                isinstance(st.targets[0], ast.Name) and \
+                canon(f, st.value) == 'build_queue_collection(%s).' \
+                'queued_prs' % f.params[0]:
+            qp.append((st, st.value))
+    ok = len(qp) == 1 and len(stores_to(f, qp[0][0].targets[0].id)) == 1
+    qvar = qp[0][0].targets[0].id if qp else None
     rep.evaluated()
     rep.check(ok, R, f.qname + ': queued_prs read from the queue '
               'collection, once', f.where(), 'queued_prs = %s' %
@@ -560,7 +572,7 @@ def rebuild_order(prog, an, rep):
                   'its pull requests were read: nothing is re-submitted',
                   path=c.describe_path(path))
     loops = [n for n in walk_local(f.node, include_root=False)
-             if isinstance(n, ast.For) and src(n.iter) == 'queued_prs']
+             if isinstance(n, ast.For) and src(n.iter) == qvar]
     rep.evaluated()
     rep.check(len(loops) == 1, R, f.qname + ': re-submission iterates '
               'queued_prs in order', f.where(), 'no loop over queued_prs '
@@ -590,7 +602,13 @@ def rebuild_order(prog, an, rep):
                       'are re-submitted before the old queue is gone',
                       path=c.describe_path(path))
     # empty queue: nothing deleted, success
-    eb = an.branch_nodes(f, lambda e: src(e) == 'queue_branches', False)
+    rm_loops = [lp for lp in walk_local(f.node, include_root=False)
+                if isinstance(lp, ast.For) and any(
+                    isinstance(x, ast.Call) and
+                    isinstance(x.func, ast.Attribute) and
+                    x.func.attr == 'remove' for x in ast.walk(lp))]
+    qlist = {src(lp.iter) for lp in rm_loops}
+    eb = an.branch_nodes(f, lambda e: src(e) in qlist, False, expand=None)
     for b in eb:
         first = _first_exit(an, f, c, b)
         rep.check(first is not None and first[0] == 'raise' and
